@@ -260,6 +260,7 @@ def c01_rf18(run):
     run.min_instances('RF69', 2)
     rf_flow.rf70(run)
     run.min_instances('RF70', 4)
+    rf_flow.rf18b(run)
     rf_flow.rf67(run, units=('gen',))
 
 
@@ -395,6 +396,7 @@ def c05_rf10(run):
     rf_abi.rf10h(run)
     rf_abi.rf10i(run)
     rf_abi.rf10j(run)
+    rf_abi.rf84(run)
     rf_abi.rf65(run)
     run.min_instances('RF65', 2)
     rf_flow.rf32(run)
